@@ -5,9 +5,12 @@ import extract
 
 REPS = [":", "a", "Z", "_", "0", "-", ".", "·", "̀", "⻿", "⿯", ";", " ",
         "\U00010000", "x", "m", "l", "M"]
-KINDS = ["ncname", "qname", "element", "attr", "pi", "entity"]
+# ... and the DOM factories create_processing_instruction / create_element / create_attribute / create_entity_reference (round-7
+# seeds C18-I, C18-J: a factory that trusts the parser for what the parser does not check)
+KINDS = ["ncname", "qname", "element", "attr", "pi", "entity", "dom-pi", "dom-elem", "dom-attr", "dom-entref"]
 SPEC_OF = {"ncname": "spec-ncname", "qname": "spec-qname", "element": "spec-qname", "attr": "spec-attr",
-           "pi": "spec-pitarget", "entity": "spec-name"}
+           "pi": "spec-pitarget", "entity": "spec-name", "dom-pi": "spec-pitarget", "dom-elem": "spec-qname", "dom-attr": "spec-qname",
+           "dom-entref": "spec-dom-entref"}
 
 
 def strings(maxlen):
@@ -74,6 +77,9 @@ def run(chk):
         for suf in ("", "a", "2", ".x", "-x", "_", "\u00b7", ":a", ":a:b", ":", "foo:bar", ":xml", "é", ":2"):
             for k in KINDS:
                 cases.append((k, w + suf))
+    for s_ in ("amp", "lt", "gt", "apos", "quot", "amp;x", "lt;gt", "amp;", "quot; x='1'", "amp ", " amp", "AMP", "#38", "#x26", "amp;amp", "e;x"):
+        for k in KINDS:
+            cases.append((k, s_))
     lines = [lib.req("nameok", k, s) for k, s in cases]
     # (the thorough enumeration is several hundred thousand requests per stream: no stream may be cut short by a time limit,
     # an answer that is missing would be read as a refusal)
